@@ -34,6 +34,9 @@ def corpus(tier, seed):
         # unnormalised likelihoods: ln Z ~ -700 / +700
         std_spec("offlow2", s + 25, 25),
         std_spec("offhigh2", s + 26, 25),
+        # prior_sampling: the result is the sorted initial live set, finalised at once
+        std_spec("gauss2", s + 27, 50, prior_sampling=True),
+        std_spec("nonuni2", s + 28, 20, prior_sampling=True, resume_after_done=1),
     ]
     if tier == "thorough":
         k = 11
